@@ -171,6 +171,8 @@ def run(ctx: Ctx) -> None:
         tgt = [s for l, s in first.succ if l == bad_label]
         okp = bool(tgt) and any(pe in res.callees(pdr, c).funcs for c in node_calls(tgt[0]))
     ctx.ob("C04.R1", pdr, "plaintext preamble != 0x00 -> preamble error handler", okp, "")
+    early = preamble_before_giveup(ctx, pdr)
+    ctx.ob("C04.R1", pdr, "the framing marker is examined before the receive loop can give up", not early, f"the loop can return at {early[:2]} with bytes buffered whose first byte was never examined: a device speaking the other framing is diagnosed late (or only as a socket error)")
     # -- key validation
     dk = noise.methods["_decode_noise_psk"]
     expect(dk, "key not base64 -> invalid encryption key", lambda t: t == "except ValueError", "InvalidEncryptionKeyAPIError")
@@ -291,3 +293,59 @@ def _on_every_path(ctx: Ctx, fn: Func, call: ast.Call) -> bool:
     if not nodes:
         return False
     return g.exit not in walk(g, {}, lambda n: None, blocked=set(nodes))
+
+
+def preamble_before_giveup(ctx: Ctx, pdr: Func) -> list[str]:
+    """Plaintext receive loop: the loop runs only while bytes are buffered, so the first byte (the
+    preamble) is always available; every `return` inside an iteration must therefore come after the
+    preamble comparison.  Returns the offending return sites."""
+    from ..flow import occurred_before
+
+    gp = cfg_of(ctx, pdr)
+    loops = [n for n in own_nodes(pdr.node) if isinstance(n, ast.While)]
+    if len(loops) != 1:
+        return ["<receive loop not unique>"]
+    inside = {x for b in loops[0].body for x in ast.walk(b)}
+    heads = [n for n in gp.reachable() if n.kind == "join" and n.ast is loops[0]]
+    # the preamble comparison: the first condition that involves the first varint read
+    first_read_var = None
+    pre_conds: list[Node] = []
+    for n in gp.reachable():
+        if n.kind != "cond" or n.ast not in inside:
+            continue
+        if any(isinstance(x, ast.Call) and norm(x.func) == "self._read_varuint" for x in ast.walk(n.ast)):
+            pre_conds = [n]
+            break
+    if not pre_conds:
+        # read bound by a plain assignment first: take the first condition on that variable
+        for n in gp.reachable():
+            if n.kind == "stmt" and n.ast in inside and isinstance(n.ast, ast.Assign) and isinstance(n.ast.value, ast.Call) and norm(n.ast.value.func) == "self._read_varuint" and isinstance(n.ast.targets[0], ast.Name):
+                first_read_var = n.ast.targets[0].id
+                break
+        if first_read_var:
+            pre_conds = [n for n in gp.reachable() if n.kind == "cond" and any(isinstance(x, ast.Name) and x.id == first_read_var for x in ast.walk(n.ast))][:1]
+    if not pre_conds:
+        return ["<preamble comparison not found>"]
+
+    def ev(n: Node):
+        return ["preamble-tested"] if n in pre_conds else []
+
+    facts = occurred_before(gp, ev)
+    # the fact must be re-established in every iteration: check returns using a per-iteration analysis
+    from ..cfg import must_forward
+
+    def gk(n: Node, f: frozenset, label: str) -> frozenset:
+        if n in heads:
+            return frozenset()
+        if n in pre_conds:
+            return f | {"preamble-tested"}
+        return f
+
+    per_iter = must_forward(gp, gk)
+    bad = []
+    for n in gp.reachable():
+        if n.kind == "stmt" and isinstance(n.ast, ast.Return) and n.ast in inside and not n.copy_of:
+            if "preamble-tested" not in per_iter.get(n, frozenset()):
+                bad.append(f"L{n.lineno}: {n.text(40)}")
+    return bad
+
